@@ -1,0 +1,15 @@
+//go:build !verif
+// +build !verif
+
+package cache
+
+// Verification hooks (build tag `verif`). With the tag off they are empty.
+
+func verifNow() (int64, bool) { return 0, false }
+
+func verifPoint(point string, obj interface{}, args ...interface{}) {}
+
+// VerifPoint is the exported form of verifPoint for other pike packages.
+func VerifPoint(point string, obj interface{}, args ...interface{}) {}
+
+func verifLRU(c *httpLRUCache) {}
